@@ -23,6 +23,11 @@
          circuit; if the states chain from the argument to the result and every event is
          accepted by its validator, the returned circuit has the same inputs, as many outputs
          and the same truth table as the argument.
+     (5) the CODE of the pure parts is regenerated from the current source on every check (translator T21,
+         Generated/SubcircuitAlgGen.v) and proved equal to the hand-written functions the theorems above are about
+         (C04_cone_code_regenerated): the per-cut simulation loop, _get_subcircuits as a whole,
+         evaluate_truth_table_with_dont_cares, _eval_dont_cares, _get_internal_gates and the classification of the
+         outputs of a subcircuit inside minimize_subcircuits.
    Every call of Circuit.replace_subcircuit made by minimize_subcircuits during the check is
    replayed through the model and validated with check_subst, and every run that returns is
    validated end to end with check_run (harness/patcorr.py).
@@ -46,6 +51,9 @@ Require Import Cirbo.Proofs.EvalFacts Cirbo.Proofs.PatternBits Cirbo.Proofs.Patt
         Cirbo.Proofs.InputsTT Cirbo.Proofs.ConeSim Cirbo.Proofs.ConeFacts
         Cirbo.Proofs.ValidatorFacts Cirbo.Proofs.MergeFacts Cirbo.Proofs.CareFacts Cirbo.Proofs.SolverTable
         Cirbo.Proofs.C04Examples.
+Require Import Cirbo.Model.Traverse Cirbo.Model.SubcircuitPrims Cirbo.Model.SubcircuitAlg Cirbo.Generated.SubcircuitAlgGen
+        Cirbo.Model.SubcircuitGlue Cirbo.Proofs.SubcircuitAlgGen.
+From Coq Require Import Permutation.
 Require Import Cirbo.Proofs.WFEmplace Cirbo.Proofs.WFStep Cirbo.Proofs.EvalEntry Cirbo.Proofs.TruthTable
         Cirbo.Proofs.SemReplaceSub Cirbo.Proofs.C04Replace Cirbo.Proofs.C04Run Cirbo.Proofs.C04RunExample.
 
@@ -410,6 +418,84 @@ Example C04_example_run_rejected :
   check_run c04_run_c0 [] c04_run_c2 = false /\ check_run c04_run_c0 [] c04_run_c0 = true /\
   check_event c04_run_merge = true /\ check_event c04_run_replace = true.
 Proof. exact c04_run_rejected. Qed.
+
+(* ---- (5) the code of the pure parts, regenerated from cirbo/minimization/subcircuit.py by translator T21 ----
+   gen_* are the definitions of Generated/SubcircuitAlgGen.v, built statement by statement from the current source;
+   the right-hand sides are the hand-written models: PatternSim (simulate_cone, cone_size, cone_outputs,
+   tt_with_dont_cares, reachable_vectors) and, for the parts that had no model before, Model/SubcircuitAlg.v
+   (nested_cut, filter_cuts, fill_cut, internal_gates, classify_outputs) composed in Model/SubcircuitGlue.v
+   (subcircuit_of_cut, get_subcircuits_model, dont_care_strings).
+   Conventions of the translation (trusted; stated in Generated/SubcircuitAlgGen.v and Model/SubcircuitPrims.v):
+   ints are N (patterns: `MAX - p` truncates at 0 as in T5); a Python set is the list of its distinct elements in
+   insertion order and ITERATING over it yields `set_iter s` for an arbitrary function set_iter - the leaf order of a
+   cut is set_iter (set(cut)), as in the hand model, where it is a parameter; reading a defaultdict does not insert;
+   _Subcircuit objects are records; `while` loops run on fuel (the hand models of the searches take the same fuel;
+   for _eval_dont_cares any fuel above the number of inputs is enough); inputs_tt strings denote leaf vectors
+   (care_of_strings).  Side conditions: set_iter returns a permutation; the cuts have no repeated leaf and at most
+   cut_size leaves (what the enumerator returns; a longer cut raises KeyError in the table of input patterns); the
+   circuit inputs are distinct (with a repeated input the in-place counter of _eval_dont_cares and zip_inputs
+   differ). *)
+Theorem C04_cone_code_regenerated :
+  (* (b) _Subcircuit.evaluate_truth_table_with_dont_cares, all objects *)
+  (forall self,
+     gen_Subcircuit_evaluate_truth_table_with_dont_cares self =
+     Ok (tt_with_dont_cares (length (Subcircuit_inputs self))
+                            (map (pat_get (Subcircuit_patterns self)) (Subcircuit_outputs self))
+                            (care_of_strings (Subcircuit_inputs_tt self)))) /\
+  (* (a) the body of the loop over the good cuts of _get_subcircuits *)
+  (forall set_iter c cut_nodes node_pos outputs_set inputs_tt subs cut,
+     Permutation (set_iter (py_set_of_list cut)) (py_set_of_list cut) ->
+     Permutation (set_iter (cm_get cut_nodes cut [])) (cm_get cut_nodes cut []) ->
+     length (set_iter (py_set_of_list cut)) = length cut ->
+     (forall x, memb x outputs_set = memb x (outputs c)) ->
+     py_adict_getitem N.eqb inputs_tt (py_len cut) = Ok (generate_inputs_tt (py_len cut)) ->
+     gen_get_subcircuits_for9 set_iter c cut_nodes node_pos outputs_set inputs_tt subs cut =
+     do s <- subcircuit_of_cut set_iter c cut_nodes node_pos cut; Ok (subs ++ [s])) /\
+  (* (a) _get_subcircuits as a whole: sorting, cut filtering, node sets, per-cut simulation *)
+  (forall set_iter fuel c cuts cn max_size cut_size,
+     (forall s, Permutation (set_iter s) s) ->
+     Forall (fun cut => NoDup cut /\ (py_len cut <= cut_size)%N) cuts ->
+     gen_get_subcircuits set_iter fuel c cuts cn max_size cut_size =
+     get_subcircuits_model set_iter fuel c cuts cn max_size) /\
+  (forall cn cut1 cut2, gen_get_subcircuits_is_nested_cut cn cut1 cut2 = Ok (nested_cut cn cut1 cut2)) /\
+  (* (c) _eval_dont_cares *)
+  (forall fuel c subs, NoDup (inputs c) -> length (inputs c) < fuel ->
+     gen_eval_dont_cares fuel c subs =
+     do _ <- mapM (fun x => do a <- zip_inputs (inputs c) (map inj x) []; evaluate_full_circuit c a)
+                  (all_bool_vectors (length (inputs c)));
+     mapM (fun sub => do vs <- reachable_vectors c (Subcircuit_inputs sub);
+                      Ok (set_Subcircuit_inputs_tt sub (dont_care_strings vs))) subs) /\
+  (forall vs v, vec_mem v (care_of_strings (dont_care_strings vs)) = vec_mem v vs) /\
+  (* (d) _get_internal_gates, every fuel *)
+  (forall fuel c ins outs, gen_get_internal_gates fuel c ins outs = internal_gates fuel c ins outs) /\
+  (* (e) the classification of the outputs inside minimize_subcircuits *)
+  (forall sub inputs,
+     gen_classify_outputs sub inputs =
+     let r := classify_outputs (Subcircuit_patterns sub) inputs (Subcircuit_outputs sub) in
+     Ok (cl_found r, max_pattern (N.of_nat (length inputs)), cl_filtered r, cl_filtered_lst r, cl_trivial r,
+         cl_negated r)) /\
+  (forall pats leaves outs,
+     let r := classify_outputs pats leaves outs in
+     let mx := max_pattern (N.of_nat (length leaves)) in
+     (forall o l, dget (cl_trivial r) o = Some l ->
+        pat_get pats o = pat_get pats l /\ (In l leaves \/ In l (cl_filtered_lst r))) /\
+     (forall o l, dget (cl_negated r) o = Some l ->
+        pat_get pats l = (mx - pat_get pats o)%N /\ (In l leaves \/ In l (cl_filtered_lst r)))).
+Proof. exact cone_code_regenerated. Qed.
+
+(* the regenerated code runs: the example circuit with the cut family of its three inner cones (set_iter = identity) *)
+Example C04_example_regenerated_run :
+  exists s1 s2 s3,
+    gen_get_subcircuits (fun s => s) 20 c04_old (map fst regen_cut_nodes) regen_cut_nodes 9 5 = Ok [s1; s2; s3] /\
+    s1 = mk_gen_Subcircuit ["b"; "a"] ["b"; "a"; "w"; "x"; "y"] ["w"; "y"] 2 []
+                           [("a", 10%N); ("b", 12%N); ("w", 6%N); ("x", 8%N); ("y", 7%N)] /\
+    (exists t1 t2 t3, gen_eval_dont_cares 10 c04_old [s1; s2; s3] = Ok [t1; t2; t3] /\
+                      Subcircuit_inputs_tt t1 = ["00"; "01"; "10"; "11"]) /\
+    gen_classify_outputs s1 (Subcircuit_inputs s1) =
+      Ok ([(12%N, "b"); (10%N, "a"); (6%N, "w"); (7%N, "y")], 15%N, ["w"; "y"], ["w"; "y"], [], []) /\
+    gen_get_internal_gates 20 c04_old ["a"; "b"] ["y"] = Ok ["x"] /\
+    gen_get_internal_gates 1 c04_old ["a"; "b"] ["y"] = Err OutOfFuel.
+Proof. exact regenerated_example. Qed.
 
 (* ---- the added hypotheses are necessary (witnesses) ---- *)
 (* operand count: eval_pattern ignores a surplus operand of a comparison gate (den = None:
